@@ -42,6 +42,24 @@ PlanRun run_plan_single(const TaskPlan &plan, const ExecCfg &cfg, bool log_event
     return pr;
 }
 
+std::vector<PlanRun> run_plans_sequential(const std::vector<TaskPlan> &plans, const ExecCfg &cfg, int garbage) {
+    std::vector<PlanRun> out(plans.size());
+    TaskCtx ctx; TaskCtx *prev = g_task; rt_bind(&ctx);
+    for (size_t i = 0; i < plans.size(); i++) {
+        TaskPlan p = plans[i]; p.garbage = garbage;
+        for (int k = 0; k < 7; k++) ctx.tuning[k] = p.tuning[k];
+        ctx.garbage = (Garbage)garbage; if (i == 0) ctx.grng.reseed(0x51ab5eedULL + garbage);
+        ctx.evh = Hash64(); uint64_t s0 = ctx.steps;
+        dispatch_kind(p.dtype, [&](auto k) { run_world<decltype(k)>(&ctx, &p, &cfg, &out[i]); return 0; });
+        out[i].evhash = ctx.evh.h; out[i].steps = ctx.steps - s0;
+        out[i].leaks = rt_live_blocks(&ctx, true);
+        // blocks a plan left behind stay in the ledger (and in the stale ring): that is the history the next plan sees
+    }
+    rt_release_all(&ctx);
+    rt_bind(prev);
+    return out;
+}
+
 struct TaskArg { TaskCtx *ctx; const TaskPlan *plan; const ExecCfg *cfg; PlanRun *pr; };
 static void task_body(void *p) {
     TaskArg *a = (TaskArg *)p;
